@@ -11,8 +11,11 @@
 //!   (4) rebasing away and back restores the tree ids exactly when the commit's changes and
 //!       the parent change touch disjoint paths.
 //! Path values are compared modulo the denotation of conflicts (trivially resolved value, else
-//! signed multiset of terms). The merged parents' tree is `merge_commit_trees` (C07 decides the
-//! tree merge it is made of).
+//! signed multiset of terms). The merged parents' tree is computed by the check's own recursive
+//! merge over its own parent table (base for the next parent = greatest common ancestors of all
+//! parents folded so far), fed to `MergedTree::merge` (C07 decides that tree merge); it never
+//! goes through jj's index or `find_recursive_merge_commits`. A separate exhaustive family
+//! covers rebases onto and from three-parent merges with asymmetric ancestry.
 
 use std::cell::RefCell;
 use std::collections::BTreeMap;
@@ -1352,11 +1355,10 @@ fn main() {
                 ],
                 x_variants: vec![
                     (ROOT, set("q", Some(BASE))),
-                    (ROOT, Edit::Noop),
                     (3, set("q", Some(BASE))),
                     (3, set("p", Some(RIGHT))),
                 ],
-                merge_edits: vec![set("q", Some(BASE)), Edit::Noop],
+                merge_edits: vec![set("q", Some(BASE))],
             },
             OctopusFamily {
                 name: "octopus-4-keep",
@@ -1465,10 +1467,10 @@ fn main() {
         traces_validated_against_impl: Some(transitions),
         extra,
         assumptions: vec![
-            "merge_commit_trees is used to obtain the merged parents' tree (its tree merge is decided by C07)".into(),
+            "the merged parents' tree is the check's own recursive merge over its own parent table, fed to MergedTree::merge (decided by C07)".into(),
             "state key = per label: parent labels and tree ids (content hashes); commit ids are not in the key".into(),
             "in-memory commit backend written in the check (strict per-path object store), default index".into(),
-            "parents of merges are listed in creation order; at most two parents; the root is never a merge parent".into(),
+            "searches: parents of merges are listed in creation order, at most two parents; three-parent family: every ordered triple; the root is never a merge parent".into(),
         ],
         ..Default::default()
     });
